@@ -591,7 +591,7 @@ def part_catalog(ctx, shard):
                 if slot is None:
                     kw[n] = v.copy() if v.ndim else v[()]
                     continue
-                unit = {"X": "m", "Y": "s", "W": "g"}[slot]
+                unit = {"X": "m", "Y": "s", "W": "g"}[slot[0]]
                 if n == bad:
                     unit = "K" if unit != "K" else "m"
                 kw[n] = mkq(v, unit, "strided" if v.ndim else "base")
